@@ -660,6 +660,7 @@ func runC19(c *Ctx, r *Report) {
 	r.floor("appends to the suffix skip list", na, 2)
 	r.rule("C19-R4", "B", "P1", "the walker's callbacks run concurrently: the streaming filter they feed uses its slab only under its mutex (same obligations as C05-R1)", "walker + --filter --no-sort: matches lost or a crash")
 	oneSlabPerWorker(c, r)
+	c17r10(c, r) // --walker / --walker-skip values are assigned or rejected, never silently ignored
 }
 
 // ------------------------------------------------------------------------------------------ C20
